@@ -259,6 +259,7 @@ Print Assumptions all_consulted_voters_respected_refuted.
    A = cycle-523: a node attempt whose Pipeline fails by a scripted handler fault and is rolled back, then a
        committed eviction on another node;
    B = cycle-275: reclaim with the capacity plugin, several victims of one queue on one node;
+   D = cycle-586: preempt with topology-aware preemption, a gang whose first attempt fails by a handler fault;
    C = cycle-435: intra-job preemption. ---------- *)
 Definition ex_of (toks : list Z) : option (list positive * nat * bool * bool) :=
   match run_dec dCase toks with
@@ -269,10 +270,14 @@ Definition ex_of (toks : list Z) : option (list positive * nat * bool * bool) :=
   | None => None
   end.
 
-Definition ex_toks_A : list Z := [2; 3; 1; 1; 1000; 8388608; 1; 0; 2; 1; 1000; 1048576; 1; 1; 3; 1; 500; 8912896; 3; 0; 1; 1; 1; 1; 0; 0; 3; 1; 1; 0; 0; 3; 2; 1; 4; 0; 3; 3; 1; 0; 0; 1; 6; 1; 1; 1; 2; 500; 524288; 0; 6; 3; 1; 2; 2; 1; 0; 500; 524288; 0; 1; 0; 1; 3; 2; 1; 1; 750; 2621440; 0; 1; 0; 1; 4; 2; 1; 1; 250; 2097152; 0; 1; 0; 1; 5; 2; 1; 2; 750; 2097152; 0; 1; 0; 0; 6; 3; 1; 0; 1000; 524288; 0; 1; 0; 1; 3; 1; 0; 0; 2; 3; 0; 3; 1; 0; 6; 1; 0; 2; 0; 3; 0; 4; 0; 5; 0; 6; 0; 1; 1; 2; 1; 1; 0; 0; 0; 0; 3; 0; 2; 3; 1; 1; 2; 1; 1; 0; 1; 1; 4; 2; 1; 2; 2; 3; 3; 4; 3; 0; 0; 0; 1; 1; 2; 3; 5; 1; 1; 0; 0; 0; 4; 1; 3; 1; 1; 1; 1; 1; 1; 2; 2; 2; 0; 0; 0; 3; 1; 1; 1; 1; 1; 1].
-Definition ex_toks_B : list Z := [2; 2; 1; 1; 1750; 6815744; 6; 0; 2; 1; 8000; 67108864; 4; 0; 3; 1; 1; 1; 0; 0; 2; 1; 1; 0; 0; 3; 1; 1; 0; 0; 3; 1; 1; 0; 0; 3; 2; 2; 1; 0; 3; 3; 3; 0; 0; 3; 5; 1; 1; 1; 0; 500; 2097152; 0; 6; 1; 1; 2; 1; 1; 0; 500; 2097152; 0; 6; 1; 1; 3; 1; 1; 1; 500; 2097152; 0; 6; 1; 1; 4; 2; 1; 1; 1500; 2097152; 0; 1; 0; 1; 5; 3; 1; 0; 8000; 33554432; 0; 6; 2; 1; 3; 1; 0; 0; 2; 2; 0; 3; 0; 0; 5; 1; 0; 2; 0; 3; 0; 4; 0; 5; 0; 3; 1; 1; 2; 1; 3; 2; 3; 1; 0; 0; 0; 0; 2; 0; 0; 0; 6291456; 3; 0; 0; 8000; 67108864; 1; 2; 1; 1; 1; 5; 1; 1; 1; 2; 0; 0; 0; 3; 1; 0; 0; 0; 0; 0; 0; 0; 0; 156000; 1182793728; 1; 1; 1; 160; 2; 0; 100663296; 0; 0; 0; 0; 0; 0; 156000; 1182793728; 1; 1; 1; 160; 3; 128000; 1073741824; 0; 0; 0; 0; 0; 0; 156000; 1182793728; 1; 1; 1; 160; 1; 3; 1; 2; 1; 4; 1; 1; 3; 1; 2; 3; 3; 3; 2; 1; 3; 3; 2; 1].
-Definition ex_toks_C : list Z := [2; 3; 1; 1; 500; 8388608; 2; 1; 2; 1; 1500; 6291456; 7; 2; 3; 1; 3750; 13107200; 7; 1; 3; 1; 1; 1; 0; 0; 2; 1; 4; 7000; 0; 3; 1; 4; 0; 0; 2; 1; 1; 3; 0; 2; 2; 2; 2; 0; 3; 6; 1; 1; 1; 2; 1500; 2621440; 0; 1; 0; 1; 2; 1; 1; 2; 1500; 2621440; 1; 2; 3; 1; 3; 1; 1; 1; 1000; 2097152; 1; 5; 2; 1; 4; 1; 1; 0; 1250; 2097152; 0; 6; 3; 0; 5; 1; 1; 1; 500; 3145728; 0; 6; 2; 1; 6; 2; 1; 2; 750; 1048576; 0; 1; 0; 1; 2; 1; 1; 0; 2; 3; 0; 6; 1; 0; 2; 0; 3; 0; 4; 0; 5; 0; 6; 0; 3; 1; 1; 2; 1; 3; 1; 3; 1; 0; 0; 0; 0; 2; 0; 0; 0; 0; 3; 0; 0; 0; 0; 2; 0; 3; 3; 1; 1; 2; 1; 1; 4; 1; 1; 2; 2; 1; 0; 1; 4; 2; 1; 80000; 201326592; 1; 2; 1; 80; 4; 32000; 80000; 201326592; 1; 2; 1; 80; 4; 32000; 80000; 201326592; 1; 2; 1; 80; 4; 32000; 2; 12000; 16777216; 1; 2; 1; 16; 4; 0; 12000; 16777216; 1; 2; 1; 16; 4; 0; 12000; 16777216; 1; 2; 1; 16; 4; 0; 0; 2; 1; 2; 1; 6; 1; 3; 0; 0; 0; 2; 1; 1; 1; 2; 2; 3; 5; 2; 5; 3; 2; 5; 3].
+Definition ex_toks_A : list Z := [2; 3; 1; 1; 1000; 8388608; 1; 0; 2; 1; 1000; 1048576; 1; 1; 3; 1; 500; 8912896; 3; 0; 1; 1; 1; 1; 0; 0; 3; 1; 1; 0; 0; 3; 2; 1; 4; 0; 3; 3; 1; 0; 0; 1; 6; 1; 1; 1; 2; 500; 524288; 0; 6; 3; 1; 2; 2; 1; 0; 500; 524288; 0; 1; 0; 1; 3; 2; 1; 1; 750; 2621440; 0; 1; 0; 1; 4; 2; 1; 1; 250; 2097152; 0; 1; 0; 1; 5; 2; 1; 2; 750; 2097152; 0; 1; 0; 0; 6; 3; 1; 0; 1000; 524288; 0; 1; 0; 1; 3; 1; 0; 0; 2; 3; 0; 3; 1; 0; 6; 1; 0; 2; 0; 3; 0; 4; 0; 5; 0; 6; 0; 1; 1; 2; 1; 1; 0; 0; 0; 0; 3; 0; 2; 3; 1; 1; 2; 1; 1; 0; 1; 1; 4; 2; 1; 2; 2; 3; 3; 4; 3; 0; 0; 0; 1; 1; 2; 3; 5; 1; 1; 0; 0; 0; 0; 4; 1; 3; 1; 1; 1; 1; 1; 1; 0; 2; 2; 2; 0; 0; 0; 0; 3; 1; 1; 1; 1; 1; 1; 0].
+Definition ex_toks_B : list Z := [2; 2; 1; 1; 1750; 6815744; 6; 0; 2; 1; 8000; 67108864; 4; 0; 3; 1; 1; 1; 0; 0; 2; 1; 1; 0; 0; 3; 1; 1; 0; 0; 3; 1; 1; 0; 0; 3; 2; 2; 1; 0; 3; 3; 3; 0; 0; 3; 5; 1; 1; 1; 0; 500; 2097152; 0; 6; 1; 1; 2; 1; 1; 0; 500; 2097152; 0; 6; 1; 1; 3; 1; 1; 1; 500; 2097152; 0; 6; 1; 1; 4; 2; 1; 1; 1500; 2097152; 0; 1; 0; 1; 5; 3; 1; 0; 8000; 33554432; 0; 6; 2; 1; 3; 1; 0; 0; 2; 2; 0; 3; 0; 0; 5; 1; 0; 2; 0; 3; 0; 4; 0; 5; 0; 3; 1; 1; 2; 1; 3; 2; 3; 1; 0; 0; 0; 0; 2; 0; 0; 0; 6291456; 3; 0; 0; 8000; 67108864; 1; 2; 1; 1; 1; 5; 1; 1; 1; 2; 0; 0; 0; 3; 1; 0; 0; 0; 0; 0; 0; 0; 0; 156000; 1182793728; 1; 1; 1; 160; 2; 0; 100663296; 0; 0; 0; 0; 0; 0; 156000; 1182793728; 1; 1; 1; 160; 3; 128000; 1073741824; 0; 0; 0; 0; 0; 0; 156000; 1182793728; 1; 1; 1; 160; 1; 3; 1; 2; 1; 4; 1; 1; 3; 1; 2; 3; 3; 3; 2; 1; 3; 3; 2; 1; 0].
+Definition ex_toks_C : list Z := [2; 3; 1; 1; 500; 8388608; 2; 1; 2; 1; 1500; 6291456; 7; 2; 3; 1; 3750; 13107200; 7; 1; 3; 1; 1; 1; 0; 0; 2; 1; 4; 7000; 0; 3; 1; 4; 0; 0; 2; 1; 1; 3; 0; 2; 2; 2; 2; 0; 3; 6; 1; 1; 1; 2; 1500; 2621440; 0; 1; 0; 1; 2; 1; 1; 2; 1500; 2621440; 1; 2; 3; 1; 3; 1; 1; 1; 1000; 2097152; 1; 5; 2; 1; 4; 1; 1; 0; 1250; 2097152; 0; 6; 3; 0; 5; 1; 1; 1; 500; 3145728; 0; 6; 2; 1; 6; 2; 1; 2; 750; 1048576; 0; 1; 0; 1; 2; 1; 1; 0; 2; 3; 0; 6; 1; 0; 2; 0; 3; 0; 4; 0; 5; 0; 6; 0; 3; 1; 1; 2; 1; 3; 1; 3; 1; 0; 0; 0; 0; 2; 0; 0; 0; 0; 3; 0; 0; 0; 0; 2; 0; 3; 3; 1; 1; 2; 1; 1; 4; 1; 1; 2; 2; 1; 0; 1; 4; 2; 1; 80000; 201326592; 1; 2; 1; 80; 4; 32000; 80000; 201326592; 1; 2; 1; 80; 4; 32000; 80000; 201326592; 1; 2; 1; 80; 4; 32000; 2; 12000; 16777216; 1; 2; 1; 16; 4; 0; 12000; 16777216; 1; 2; 1; 16; 4; 0; 12000; 16777216; 1; 2; 1; 16; 4; 0; 0; 2; 1; 2; 1; 6; 1; 3; 0; 0; 0; 0; 2; 1; 1; 1; 2; 2; 3; 5; 2; 5; 3; 2; 5; 3; 0].
 
+Definition ex_toks_D : list Z := [2; 1; 1; 1; 2750; 16777216; 4; 0; 3; 1; 1; 3; 0; 0; 2; 1; 4; 11000; 0; 3; 1; 3; 0; 0; 3; 1; 1; 0; 0; 3; 2; 1; 1; 0; 3; 3; 3; 1; 0; 2; 10; 1; 1; 1; 1; 750; 2621440; 0; 5; 1; 1; 2; 1; 1; 0; 500; 1048576; 0; 6; 1; 0; 3; 1; 1; 0; 500; 2621440; 0; 6; 1; 1; 4; 2; 1; 0; 750; 2097152; 0; 1; 0; 0; 5; 2; 1; 2; 1000; 1572864; 0; 1; 0; 0; 6; 2; 1; 2; 1250; 1048576; 0; 1; 0; 1; 7; 2; 1; 2; 1500; 524288; 0; 1; 0; 1; 8; 2; 1; 0; 750; 2097152; 0; 1; 0; 1; 9; 3; 1; 2; 1000; 2097152; 0; 6; 1; 1; 10; 3; 1; 2; 1000; 2621440; 0; 1; 0; 1; 3; 1; 0; 0; 2; 2; 0; 3; 0; 0; 10; 1; 0; 2; 0; 3; 0; 4; 0; 5; 0; 6; 0; 7; 0; 8; 0; 9; 0; 10; 0; 3; 1; 1; 2; 0; 3; 2; 3; 1; 0; 0; 0; 0; 2; 0; 0; 0; 0; 3; 0; 0; 0; 0; 2; 3; 1; 1; 1; 2; 0; 1; 3; 1; 0; 0; 1; 3; 2; 4; 1; 5; 1; 0; 0; 0; 1; 1; 2; 2; 5; 1; 1; 2; 1; 3; 2; 1; 3; 2; 3; 1; 1; 6; 1; 1; 2; 3; 1; 2; 1; 3; 2; 3; 1; 1].
+
+Example ex_topology_aware_preempt : ex_of ex_toks_D = Some ([3%positive; 1%positive], 1%nat, true, true).
+Proof. vm_compute. reflexivity. Qed.
 Example ex_run_commits_an_eviction : ex_of ex_toks_A = Some ([1%positive], 2%nat, true, true).
 Proof. vm_compute. reflexivity. Qed.
 Example ex_capacity_reclaim : ex_of ex_toks_B = Some ([1%positive; 2%positive; 3%positive], 1%nat, true, true).
